@@ -5,6 +5,7 @@ import TemplVerif.Drive.C01
 import TemplVerif.Drive.C03
 import TemplVerif.Drive.C05
 import TemplVerif.Drive.C20
+import TemplVerif.Drive.C19
 import Std.Data.HashMap
 open TemplVerif TemplVerif.Drive
 
@@ -16,6 +17,7 @@ def dispatch (ws : List String) : Verdict :=
   | "C03" :: rest => C03.handle rest
   | "C05" :: rest => C05.handle rest
   | "C20" :: rest => C20.handle rest
+  | "C19" :: rest => C19.handle rest
   | _ => .badOp
 
 structure Stats where
